@@ -125,11 +125,17 @@ def _sep_pretty(i, prev, cur):
     return " "
 
 
+COMMENT_BODIES = ["/* a\n   b\n*/", "/***/", "/**/", "/* x **/", "/******* banner *******/", "/* a * / b */", "/*/ */", "/* é☃ # \" */",
+                  "/* keep; */# }{ ;\n", "/****/"]
+
+
 def _sep_mlcomment(i, prev, cur):
     if prev is None:
         return ""
     if i % 3 == 0:
-        return "\n/* a\n   b\n*/ "
+        # comment bodies as people write them: banners of stars, a star right before the closer, a slash inside,
+        # an empty comment, a closer look-alike split by a blank
+        return "\n" + COMMENT_BODIES[(i // 3) % len(COMMENT_BODIES)] + " "
     if prev[0] == "ml":
         return "\n"
     return "  "
